@@ -5,7 +5,7 @@ import (
 
 	"github.com/ontio/ontology/common"
 	"github.com/ontio/ontology/core/store"
-	scom "github.com/ontio/ontology/core/store/common"
+	"github.com/ontio/ontology/core/store/overlaydb"
 	"github.com/ontio/ontology/core/store/ledgerstore"
 	"github.com/ontio/ontology/core/types"
 	"github.com/ontio/ontology/smartcontract/event"
@@ -48,6 +48,9 @@ type VEngine struct {
 	ledger   store.LedgerStore
 	gasTable map[string]uint64
 	prev     common.Uint256
+	// scratch != nil: a scratch continuation.  Transactions commit into this overlay only,
+	// nothing reaches ss; valid until the parent executes its next transaction.
+	scratch *overlaydb.OverlayDB
 }
 
 func newGasTable() map[string]uint64 {
@@ -59,8 +62,35 @@ func newGasTable() map[string]uint64 {
 	return g
 }
 
+// In-memory state stores are recycled: a MemStateStore cannot be closed (its Close
+// dereferences the absent merkle hash store) and every goleveldb instance keeps a 4 MiB
+// write buffer and background goroutines.
+var ssPool = make(chan *ledgerstore.StateStore, 64)
+
+func acquireStore() *ledgerstore.StateStore {
+	select {
+	case ss := <-ssPool:
+		// wipe
+		ov := ss.NewOverlayDB()
+		ss.NewBatch()
+		for p := 0; p < 256; p++ {
+			it := ov.NewIterator([]byte{byte(p)})
+			for ok := it.First(); ok; ok = it.Next() {
+				ss.BatchDeleteRawKey(append([]byte{}, it.Key()...))
+			}
+			it.Release()
+		}
+		if err := ss.CommitTo(); err != nil {
+			panic(err)
+		}
+		return ss
+	default:
+		return ledgerstore.NewMemStateStore(0)
+	}
+}
+
 func NewVEngine(w *World) *VEngine {
-	e := &VEngine{ss: ledgerstore.NewMemStateStore(0), ledger: w.Chain.Store(), gasTable: newGasTable()}
+	e := &VEngine{ss: acquireStore(), ledger: w.Chain.Store(), gasTable: newGasTable()}
 	e.ss.NewBatch()
 	for _, kv := range w.Snapshot {
 		e.ss.BatchPutRawKeyVal(kv.K, kv.V)
@@ -74,7 +104,10 @@ func NewVEngine(w *World) *VEngine {
 func (e *VEngine) Exec(tx *types.Transaction, height, ts uint32) (res TxResult) {
 	hdr := &types.Header{Version: 0, PrevBlockHash: e.prev, Height: height, Timestamp: ts, ConsensusData: uint64(height)}
 	block := &types.Block{Header: hdr, Transactions: []*types.Transaction{tx}}
-	overlay := e.ss.NewOverlayDB()
+	overlay := e.scratch
+	if overlay == nil {
+		overlay = e.ss.NewOverlayDB()
+	}
 	cache := storage.NewCacheDB(overlay)
 	notify := &event.ExecuteNotify{TxHash: tx.Hash(), State: event.CONTRACT_STATE_FAIL}
 	var err error
@@ -83,7 +116,7 @@ func (e *VEngine) Exec(tx *types.Transaction, height, ts uint32) (res TxResult) 
 	}); p != nil {
 		res.Panic = p
 		res.Err = fmt.Sprint("panic: ", p)
-		return res // nothing was committed to the overlay's store
+		return res // the per-tx cache was not committed
 	}
 	if oe := overlay.Error(); oe != nil {
 		res.Err = "overlay: " + oe.Error()
@@ -94,6 +127,9 @@ func (e *VEngine) Exec(tx *types.Transaction, height, ts uint32) (res TxResult) 
 	}
 	res.OK = err == nil && notify.State == event.CONTRACT_STATE_SUCCESS
 	res.Notify = notify.Notify
+	if e.scratch != nil {
+		return res
+	}
 	// persist the write set exactly like saveBlockToStateStore does
 	e.ss.NewBatch()
 	overlay.GetWriteSet().ForEach(func(key, val []byte) {
@@ -109,26 +145,30 @@ func (e *VEngine) Exec(tx *types.Transaction, height, ts uint32) (res TxResult) 
 	return res
 }
 
-func (e *VEngine) View() *storage.CacheDB { return storage.NewCacheDB(e.ss.NewOverlayDB()) }
-
-func (e *VEngine) Fork() Engine {
-	f := &VEngine{ss: ledgerstore.NewMemStateStore(0), ledger: e.ledger, gasTable: e.gasTable, prev: e.prev}
-	ov := e.ss.NewOverlayDB()
-	f.ss.NewBatch()
-	for p := 0; p < 256; p++ {
-		it := ov.NewIterator([]byte{byte(p)})
-		for ok := it.First(); ok; ok = it.Next() {
-			f.ss.BatchPutRawKeyVal(append([]byte{}, it.Key()...), append([]byte{}, it.Value()...))
-		}
-		it.Release()
+func (e *VEngine) View() *storage.CacheDB {
+	if e.scratch != nil {
+		return storage.NewCacheDB(e.scratch)
 	}
-	if err := f.ss.CommitTo(); err != nil {
-		panic(err)
-	}
-	return f
+	return storage.NewCacheDB(e.ss.NewOverlayDB())
 }
 
-func (e *VEngine) Close() {}
+// Fork is a scratch continuation of the current state (usable until e executes again).
+func (e *VEngine) Fork() Engine {
+	if e.scratch != nil {
+		panic("fork of a fork")
+	}
+	return &VEngine{ss: e.ss, ledger: e.ledger, gasTable: e.gasTable, prev: e.prev, scratch: e.ss.NewOverlayDB()}
+}
+
+func (e *VEngine) Close() {
+	if e.scratch == nil && e.ss != nil {
+		select {
+		case ssPool <- e.ss:
+		default:
+		}
+		e.ss = nil
+	}
+}
 
 // ---------------------------------------------------------------- ledger engine
 
@@ -179,5 +219,3 @@ func Dump(v *storage.CacheDB) map[string]string {
 	it.Release()
 	return d
 }
-
-var _ = scom.ST_STORAGE
